@@ -26,6 +26,7 @@ type ReplaySpec struct {
 	SchedRT      bool
 	ExtraOverlay map[string]string // repo file (abs) -> replacement file (abs), e.g. instrumented sources
 	Env          []string
+	Race         bool // run the replay under the Go race detector
 }
 
 type ReplayOutcome struct {
@@ -105,6 +106,9 @@ func WriteReplay(dir string, spec ReplaySpec, values map[string]string, params m
 	tags := ""
 	if len(spec.Tags) > 0 {
 		tags = " -tags=" + strings.Join(spec.Tags, ",")
+	}
+	if spec.Race {
+		tags += " -race"
 	}
 	envs := ""
 	for _, e := range spec.Env {
